@@ -49,11 +49,17 @@ def flatExec (ft : FTab) (fuel : Nat) (s : St) (st : Stmt) : Res Flow :=
 def isBlockStmt : Stmt → Bool
   | .if_ .. => true
   | .while_ .. => true
+  | .try_ false .. => true
   | _ => false
 
 theorem exec1_flat (ft : FTab) (fuel : Nat) (s : St) (st : Stmt) (h : isBlockStmt st = false) :
     exec1 ft fuel s st = flatExec ft fuel s st := by
-  cases st <;> first | (simp [isBlockStmt] at h; done) | (simp only [exec1, flatExec]; rfl)
+  cases st
+  case try_ star _ _ _ _ =>
+    cases star
+    · simp [isBlockStmt] at h
+    · simp only [exec1, flatExec]; rfl
+  all_goals first | (simp [isBlockStmt] at h; done) | (simp only [exec1, flatExec]; rfl)
 
 end PMV.PyCore
 
@@ -149,10 +155,18 @@ theorem exec1_ok (t : SuiteT) (h : Sound t) (ft : FTab) (n : Nat) (ih : ∀ m, m
     simp only [travStmt]
     rw [exec1_flat _ _ _ _ rfl, exec1_flat _ _ _ _ rfl]
     simp [flatExec, callOf, simpleExec]
-  | .try_ false .., s => by
+  | .try_ false body hs orelse fin, s => by
     simp only [travStmt]
-    rw [exec1_flat _ _ _ _ rfl, exec1_flat _ _ _ _ rfl]
-    simp [flatExec, callOf, simpleExec]
+    rw [exec1.eq_4, exec1.eq_4, h.suite, execL_ok t h ft n ih body s]
+    have he : (fun s1 => execL (mapT t ft) n s1 (if orelse.isEmpty then [] else t.suiteF false (travBody t orelse)))
+        = (fun s1 => execL ft n s1 orelse) := by
+      funext s1; exact orelse_ok t h ft n s1 orelse (execL_ok t h ft n ih orelse s1)
+    have hf : (fun s1 => execL (mapT t ft) n s1 (if fin.isEmpty then [] else t.suiteF false (travBody t fin)))
+        = (fun s1 => execL ft n s1 fin) := by
+      funext s1; exact orelse_ok t h ft n s1 fin (execL_ok t h ft n ih fin s1)
+    have hh : (fun x s1 => execH (mapT t ft) n s1 x (travHandlers t hs)) = (fun x s1 => execH ft n s1 x hs) := by
+      funext x s1; exact execH_ok t h ft n ih hs s1 x
+    rw [he, hf, hh]
   | .match_ .., s => by
     simp only [travStmt]
     rw [exec1_flat _ _ _ _ rfl, exec1_flat _ _ _ _ rfl]
@@ -173,6 +187,12 @@ theorem exec1_ok (t : SuiteT) (h : Sound t) (ft : FTab) (n : Nat) (ih : ∀ m, m
   | .pass, s => by simp only [travStmt]; rw [h.stmt]; exact flat_same t h ft n ih s _ rfl
   | .break_, s => by simp only [travStmt]; rw [h.stmt]; exact flat_same t h ft n ih s _ rfl
   | .continue_, s => by simp only [travStmt]; rw [h.stmt]; exact flat_same t h ft n ih s _ rfl
+theorem execH_ok (t : SuiteT) (h : Sound t) (ft : FTab) (n : Nat) (ih : ∀ m, m < n → Good t ft m) :
+    (hs : List Handler) → (s : St) → (x : String) → execH (mapT t ft) n s x (travHandlers t hs) = execH ft n s x hs
+  | [], s, x => by simp only [travHandlers]; rw [execH.eq_1, execH.eq_1]
+  | .mk ty nm hbody :: rest, s, x => by
+    simp only [travHandlers]
+    rw [execH.eq_2, execH.eq_2, execL_ok t h ft n ih hbody s, execH_ok t h ft n ih rest s x]
 theorem execL_ok (t : SuiteT) (h : Sound t) (ft : FTab) (n : Nat) (ih : ∀ m, m < n → Good t ft m) :
     (l : List Stmt) → (s : St) → execL (mapT t ft) n s (travBody t l) = execL ft n s l
   | [], s => by simp [travBody, execL_nil]
